@@ -636,7 +636,7 @@ func init() {
 	core.Register(&core.Prop{
 		ID:    "C01",
 		Level: "exploration",
-		Rule: "payload = unique alnum id + hostile body (each special alone/together, ready-made entities, multi-byte, invalid UTF-8, NUL, tag delimiters; thorough: all strings of length <= 3 over {< > & ' \" a é}); 16 sources (context var, literals, struct/pointer/map/slice fields, helper results, raw(), template.HTML, HTMLer) x 19 plumbing steps (let, array/hash wrap+index, identity user fn / Go helper, concatenation, for variable, if/else block, helper block, contentFor body, contentOf data, partial data, layout, function bodies) x 6 sinks; every (source, step, sink) triple and every step pair enumerated, deeper routes random (depth <= 3 quick, <= 5 thorough). " +
+		Rule: "payload = unique alnum id + hostile body (each special alone/together, ready-made entities, multi-byte, invalid UTF-8, NUL, tag delimiters; thorough: all strings of length <= 3 over {< > & ' \" a é}); " + fmt.Sprint(c01NSources) + " sources (context var, literals, struct/pointer/map/slice fields, helper results, raw(), template.HTML, HTMLer, reflect.Value, Stringers, named string types with and without methods, a time's zone name, nil pointers whose String / HTML expect nil) x " + fmt.Sprint(c01NSteps) + " plumbing steps (let, array/hash wrap+index, identity user fn / Go helper, concatenation, for variable, if/else block, helper block, contentFor body, contentOf data, partial data, layout, function bodies, typed-HTML containers, debug()) x " + fmt.Sprint(c01NSinks) + " sinks (output tag, if / for return, array literal, hash index, let, typed and interface slices, loops over them, helper blocks left by break / continue, a typed container printed whole); every (source, step, sink) triple and every step pair enumerated, deeper routes random (depth <= 3 quick, <= 5 thorough). " +
 			"Oracle: expected output is built by the generator; byte equality with the canonical escaping, else (a) no raw special outside verbatim trusted payloads and (b) entity-agnostic equality after unescaping. Non-trivial = the payload id actually appeared in the output (counted by template+payload hash).",
 		Assume:  []string{"literal text between tags uses an alphabet without HTML specials, so every special in the output is attributable to a payload", "NUL bytes are judged by the model-free oracle only (html/template maps NUL to U+FFFD)", "string + template.HTML, fmt.Stringer and named string types are not generated (abstentions of DESIGN.md §5 C01)"},
 		Batches: batchesQT(16, 64),
